@@ -656,11 +656,27 @@ func tieExec(sp *tieSpec, site func(string)) (o tieObs, f *tieFailure) {
 	fr := func(x rec, rest lazy.Eval[[]int]) lazy.Eval[[]int] {
 		return rest.Map(func(acc []int) []int { return ids(acc, x) })
 	}
+	// the same right fold by a fold function that looks at its lazy argument twice (in a condition
+	// and again in the result): a lazy value has one value, and the fold function is still called
+	// once per element
+	fr2 := func(name string) func(x rec, rest lazy.Eval[[]int]) lazy.Eval[[]int] {
+		b := vrt.NewBudget(int64(n), name+" called its fold function more than len(input) times (the fold function forces its lazy argument twice)")
+		return func(x rec, rest lazy.Eval[[]int]) lazy.Eval[[]int] {
+			b.Tick()
+			if len(rest.Get()) > n {
+				return lazy.Done([]int{-1})
+			}
+			return lazy.Done(ids(rest.Get(), x))
+		}
+	}
 	for _, c := range []struct {
 		name string
 		run  func() []int
 		want []int
 	}{
+		{"seq.FoldRight(rest forced twice)", func() []int { return seq.FoldRight(sq, []int{}, fr2("seq.FoldRight")).Get() }, wantRev},
+		{"iterator.FoldRight(rest forced twice)", func() []int { return iterator.FoldRight(mkIt(), []int{}, fr2("iterator.FoldRight")).Get() }, wantRev},
+		{"list.FoldRight(rest forced twice)", func() []int { return list.FoldRight(li, []int{}, fr2("list.FoldRight")).Get() }, wantRev},
 		{"seq.Fold", func() []int { return seq.Fold(sq, []int{}, ids) }, wantIDs},
 		{"iterator.Fold", func() []int { return iterator.Fold(mkIt(), []int{}, ids) }, wantIDs},
 		{"list.Fold", func() []int { return list.Fold(li, []int{}, ids) }, wantIDs},
@@ -859,7 +875,8 @@ func tieSites() []string {
 		}
 	}
 	out = append(out, "Seq.Find", "Iterator.Find", "Seq.Filter", "Iterator.Filter", "list.FilterMap", "seq.Partition", "iterator.Partition", "iterator.Partition(right first)",
-		"seq.Span", "iterator.Span", "Iterator.TakeWhile", "list.FoldLeft", "seq.FoldMap", "list.FoldMap")
+		"seq.Span", "iterator.Span", "Iterator.TakeWhile", "list.FoldLeft", "seq.FoldMap", "list.FoldMap",
+		"seq.FoldRight(rest forced twice)", "iterator.FoldRight(rest forced twice)", "list.FoldRight(rest forced twice)")
 	for _, n := range tieSeqNames {
 		out = append(out, "constructor:"+n)
 	}
